@@ -2295,7 +2295,11 @@ class Release(_multivalued):
         if self.size_field_behavior == "apt-ftparchive":
             return 16
         if self.size_field_behavior == "dak":
-            lengths = [len(str(item['size'])) for item in self[key]]
+            items = self[key]
+            if hasattr(items, 'keys'):
+                # A single record given on the field line is not a list
+                items = [items]
+            lengths = [len(str(item['size'])) for item in items]
             return max(lengths)
         raise ValueError("Illegal value for size_field_behavior")
 
